@@ -303,6 +303,109 @@ def _fold_return_vars(fnode):
     return changed[0]
 
 
+def _list_accumulators_to_tuples(fnode):
+    """A local list that is only appended / extended and finally read through tuple(A) is the list spelling of a tuple
+    accumulator: `A = []` -> `A = ()`, `A.append(x)` -> `A += (x,)`, `A.extend(T)` -> `A += T`, `tuple(A)` -> `A`."""
+    params = {x.arg for x in fnode.args.posonlyargs + fnode.args.args + fnode.args.kwonlyargs}
+    cand = {}
+    for n in ast.walk(fnode):
+        if isinstance(n, ast.Assign):
+            for t in n.targets:
+                pairs = [(t, n.value)]
+                if isinstance(t, ast.Tuple) and isinstance(n.value, ast.Tuple) and len(t.elts) == len(n.value.elts):
+                    pairs = list(zip(t.elts, n.value.elts))
+                for a, v in pairs:
+                    if isinstance(a, ast.Name) and isinstance(v, ast.List) and not v.elts and a.id not in params:
+                        cand.setdefault(a.id, []).append(v)
+    if not cand:
+        return False
+    # every other occurrence must be one of the accepted forms
+    ok = {k: True for k in cand}
+    accepted = set()
+    reads = {k: 0 for k in cand}
+    for n in ast.walk(fnode):
+        if isinstance(n, ast.Expr) and isinstance(n.value, ast.Call) and isinstance(n.value.func, ast.Attribute) \
+                and isinstance(n.value.func.value, ast.Name) and n.value.func.value.id in cand \
+                and n.value.func.attr in ('append', 'extend') and len(n.value.args) == 1 and not n.value.keywords:
+            accepted.add(id(n.value.func.value))
+        elif isinstance(n, ast.AugAssign) and isinstance(n.target, ast.Name) and n.target.id in cand and isinstance(n.op, ast.Add) \
+                and isinstance(n.value, (ast.List, ast.Tuple)):
+            accepted.add(id(n.target))
+        elif isinstance(n, ast.Call) and isinstance(n.func, ast.Name) and n.func.id == 'tuple' and len(n.args) == 1 \
+                and isinstance(n.args[0], ast.Name) and n.args[0].id in cand:
+            accepted.add(id(n.args[0]))
+            reads[n.args[0].id] += 1
+    for n in ast.walk(fnode):
+        if isinstance(n, ast.Name) and n.id in cand and id(n) not in accepted:
+            if isinstance(n.ctx, ast.Store):
+                continue        # the `A = []` definitions (checked below)
+            ok[n.id] = False
+    stores = {}
+    for n in ast.walk(fnode):
+        if isinstance(n, ast.Name) and n.id in cand and isinstance(n.ctx, ast.Store) and id(n) not in accepted:
+            stores[n.id] = stores.get(n.id, 0) + 1
+    names = {k for k in cand if ok[k] and reads[k] >= 1 and stores.get(k, 0) == len(cand[k])}
+    if not names:
+        return False
+    for lst in [v for k in names for v in cand[k]]:
+        lst.__class__ = ast.Tuple
+        lst.elts, lst.ctx = [], ast.Load()
+
+    class T(ast.NodeTransformer):
+        def visit_Expr(self, n):
+            c = n.value
+            if isinstance(c, ast.Call) and isinstance(c.func, ast.Attribute) and isinstance(c.func.value, ast.Name) \
+                    and c.func.value.id in names and c.func.attr in ('append', 'extend'):
+                arg = c.args[0]
+                if c.func.attr == 'append':
+                    val = ast.Tuple(elts=[arg], ctx=ast.Load())
+                elif isinstance(arg, (ast.Tuple, ast.List)):
+                    val = ast.Tuple(elts=arg.elts, ctx=ast.Load())
+                else:
+                    val = ast.Call(func=ast.Name(id='tuple', ctx=ast.Load()), args=[arg], keywords=[])
+                new = ast.AugAssign(target=ast.Name(id=c.func.value.id, ctx=ast.Store()), op=ast.Add(), value=val)
+                return ast.copy_location(new, n)
+            return self.generic_visit(n)
+
+        def visit_AugAssign(self, n):
+            if isinstance(n.target, ast.Name) and n.target.id in names and isinstance(n.value, ast.List):
+                n.value = ast.Tuple(elts=n.value.elts, ctx=ast.Load())
+            return self.generic_visit(n)
+
+        def visit_Call(self, n):
+            self.generic_visit(n)
+            if isinstance(n.func, ast.Name) and n.func.id == 'tuple' and len(n.args) == 1 and isinstance(n.args[0], ast.Name) \
+                    and n.args[0].id in names:
+                return n.args[0]
+            return n
+    fnode.body = [T().visit(s_) for s_ in fnode.body]
+    return True
+
+
+def _expand_star_tuples(fnode):
+    """`t = (a, b, c); f(*t)` with t used nowhere else  ->  `f(a, b, c)` (arguments passed through a local tuple)."""
+    uses, defs = {}, {}
+    for n in ast.walk(fnode):
+        if isinstance(n, ast.Name):
+            uses[n.id] = uses.get(n.id, 0) + 1
+        if isinstance(n, ast.Assign) and len(n.targets) == 1 and isinstance(n.targets[0], ast.Name) \
+                and isinstance(n.value, (ast.Tuple, ast.List)) and not any(isinstance(e, ast.Starred) for e in n.value.elts):
+            defs.setdefault(n.targets[0].id, []).append(n)
+    changed = False
+    for n in ast.walk(fnode):
+        if isinstance(n, ast.Call) and any(isinstance(a, ast.Starred) for a in n.args):
+            new = []
+            for a in n.args:
+                if isinstance(a, ast.Starred) and isinstance(a.value, ast.Name) and len(defs.get(a.value.id, [])) == 1 \
+                        and uses.get(a.value.id) == 2:
+                    new += [_copy(e) for e in defs[a.value.id][0].value.elts]
+                    changed = True
+                else:
+                    new.append(a)
+            n.args = new
+    return changed
+
+
 def inline_program(prog):
     """Rewrite, in place, every function of the program whose body calls a new private helper at statement level."""
     count = 0
@@ -370,6 +473,8 @@ def inline_program(prog):
         before = count
         fn.node.body = rewrite_block(fn, fn.node.body, 0)
         folded = _fold_return_vars(fn.node)
+        folded = _expand_star_tuples(fn.node) or folded
+        folded = _list_accumulators_to_tuples(fn.node) or folded
         if count != before or folded:
             ast.fix_missing_locations(fn.node)
             for n in ast.walk(fn.node):
